@@ -690,6 +690,16 @@ func (db *DB) rollbackJournalSegment(ctx context.Context, r *JournalReader, dbFi
 			return fmt.Errorf("read frame(%d): %w", i, err)
 		}
 
+		// Like SQLite, stop at a zero page number and ignore pages beyond the
+		// original database size (they are cut off after the rollback). The
+		// record checksum only samples a few bytes, so arbitrary journal
+		// content can otherwise name any page up to 2^32-1.
+		if pgno == 0 {
+			return nil
+		} else if pgno > r.commit {
+			continue
+		}
+
 		// Write data to the database file.
 		if err := db.writeDatabasePage(dbFile, pgno, data, true); err != nil {
 			return fmt.Errorf("write to database (pgno=%d): %w", pgno, err)
